@@ -467,7 +467,7 @@ class RuntimeContext:
     ):
         # err = Error(e)
         self.errors.append(e)
-        if force_raise or not self.options.collect_errors:
+        if force_raise or self.force_error or not self.options.collect_errors:
             raise e
 
         if (
